@@ -232,7 +232,7 @@ def run(ctx):
           'allowed': None, 'cuts': sl.fixed(2 * 1024 * 1024 + 0x10000 + 100008, 1 << 20)}, 'directed')
     rng = ctx.rng('overlay')
     # all 2^9 signature subsets x FAT x backgrounds (exhaustive over subsets), lengths/allowed/read sizes sampled
-    reps = ctx.pick(1, 10)
+    reps = ctx.pick(1, 50)
     for mask in range(1 << 9):
         sigset = [SIGNAMES[i] for i in range(9) if mask >> i & 1]
         for bg in ('zero', 'random', 'text'):
@@ -256,7 +256,7 @@ def run(ctx):
                       'sigs': [nm], 'allowed': allowed_pool(rng), 'cuts': sl.fixed(L, size)}, 'decision-point/%s' % nm)
     # valid / mutated images and unstructured files
     rng2 = ctx.rng('images')
-    for i in range(ctx.pick(500, 12000)):
+    for i in range(ctx.pick(500, 60000)):
         k = rng2.random()
         if k < 0.25:
             spec = ic.unstructured(rng2)
@@ -280,7 +280,7 @@ def run(ctx):
     # text VMDK descriptors whose createType line comes late: restricted allowed sets decide early, small reads, the
     # decision is sampled after every read (no-revision on the text-descriptor path)
     rng4 = ctx.rng('textdesc')
-    for i in range(ctx.pick(300, 6000)):
+    for i in range(ctx.pick(300, 30000)):
         nfill = rng4.choice([0, 1, 2, 4, 8, 20])
         extra = [['# ' + 'x' * rng4.randrange(5, 90), True] for _ in range(nfill)]
         head = ['# Disk DescriptorFile'] + ['# filler %d %s' % (j, 'y' * rng4.randrange(0, 70)) for j in range(rng4.choice([0, 1, 3, 9, 25]))]
@@ -294,7 +294,7 @@ def run(ctx):
         emit({'spec': spec, 'allowed': allowed, 'cuts': sl.fixed(len(data), size)}, 'text-descriptor')
     # detect_file_format on disk
     rng3 = ctx.rng('detect')
-    for i in range(ctx.pick(400, 8000)):
+    for i in range(ctx.pick(400, 30000)):
         k = rng3.random()
         if k < 0.5:
             mask = rng3.getrandbits(9) & rng3.getrandbits(9)
